@@ -251,7 +251,7 @@ class Ctx:
 
     def go_env(self, extra=None):
         e = dict(os.environ)
-        e["GOFLAGS"] = "-mod=mod"
+        e["GOFLAGS"] = "-mod=readonly"   # never let a driver import rewrite /repo/go.mod
         e["GOPROXY"] = "off"
         e.pop("GOTOOLCHAIN", None)
         e.pop("GOSUMDB", None)
